@@ -707,6 +707,14 @@ Inductive wcall : Type :=
 | WSetStatic (k : string) (field : string)
 | WCompile (o : copt) (ord sord : list string).
 
+(* the handlers the static values of node [k] put before it: the merge handler in front and — when
+   no field mapping has been recorded for the node (repair 3dbf7fb: its input consists of the static
+   values alone) and the node has a type — the converter from the map of values to the node's input
+   type at the end *)
+Definition static_handlers (g : gstate) (k : string) : list string :=
+  k :: g_h_prenode g
+  ++ (if match alist_get k (g_fm g) with Some (_ :: _) => false | _ => true end && in_typed g k then [k] else []).
+
 (* the static values of the nodes named in [order], one node after the other: their paths
    are entered in the node's mapped paths, a handler is put in front of the node's
    pre-handlers, and (repaired version) they are consumed; a node whose static values are
@@ -728,7 +736,7 @@ Fixpoint run_statics (v : ver) (w : wstate) (order : list string) : wstate * opt
           | (m', None) =>
             run_statics v
               (w_set_nodes (alist_set k (mkWN (wn_pending n) m' (if v_static_once v then [] else fs)) (w_nodes w))
-                 (w_set_g (set_h_prenode (k :: g_h_prenode (w_g w)) (w_g w)) w))
+                 (w_set_g (set_h_prenode (static_handlers (w_g w) k) (w_g w)) w))
               rest
           end
       end
